@@ -191,7 +191,7 @@ def c08_run(sc, results):
 
 
 # ---------------------------------------------------------------- C18 (read-back of every written file)
-def c18_file(rows, rb, refs, qrys):
+def c18_file(rows, rb, refs, qrys, pair_coordinates=True):
     if "error" in rb:
         return f"the project's XMAP reader fails on a file COMA wrote: {rb['error']}"
     als = rb["alignments"]
@@ -210,6 +210,8 @@ def c18_file(rows, rb, refs, qrys):
             return "confidence differs after read-back"
         if [(p[0], p[2]) for p in a["pairs"]] != rec["_pairs"]:
             return "label pairs differ after read-back"
+        if not pair_coordinates:
+            continue
         rpos = refs[a["r"]][1]
         qpos = qrys[a["q"]][1]
         for (rs, rp, qs, qp) in a["pairs"]:
